@@ -260,11 +260,26 @@ class Ctx:
 
     def loop(self, rid, fn, require, over, desc=None, via=0, called_only=False, extra_cuts=(), require_where=None):
         """Loop funnel: in the `for` loop whose iterator expression matches regex `over`, every iteration
-        (path from the loop's `next` back to the same `next`) passes the success edge of `require`."""
+        (path from the loop's `next` back to the same `next`) passes the success edge of `require`.
+        The iterator-adaptor form of the same loop (`xs.iter().try_for_each(|x| check(x))?`, `.map(..).collect::<Result<..>>()?`)
+        is accepted when the closure handed to the adaptor passes `require` on every ok path and the adaptor's result is checked."""
         NEXT = "re:iter::traits::iterator::Iterator::next$"
+        d = desc or "%s: every iteration over `%s` passes %s" % (short(fn, 2), over, require)
+        key = self.getfn(fn)
+        if key is not None:
+            f = self.F.fns[key]
+            nx = pat(NEXT)
+            has_loop = any(call_matches(t, nx) and self._where(f, t, over) for _b, t in self.F.calls(key))
+            if not has_loop:
+                rx = pat(require)
+                adapt = pat("re:iter::traits::iterator::Iterator::(try_for_each|for_each|map|all|try_fold)$")
+                for bi, t in self.F.calls(key):
+                    if call_matches(t, adapt) and self._where(f, t, over):
+                        for cl in t["ncallables"]:
+                            if cl in self.F.fns and (self.ensures(cl, rx, 2) or (called_only and self._call_blocks(cl, rx, 2))):
+                                return self.record(rid, "R1", key, d + " [iterator-adaptor form]", "hold", [loc(t)])
         return self.r1(rid, fn, require, sink=NEXT, sink_where=over, start=NEXT, start_where=over, via=via, called_only=called_only,
-                       extra_cuts=extra_cuts, require_where=require_where,
-                       desc=desc or "%s: every iteration over `%s` passes %s" % (short(fn, 2), over, require))
+                       extra_cuts=extra_cuts, require_where=require_where, desc=d)
 
     def r1_all(self, rid, fn, requires, **kw):
         ok = True
